@@ -30,7 +30,7 @@ for f in demo.cc demo.sh notes.md; do [ -f _scratch/$f ] && cp _scratch/$f $d/; 
 cat > $d/meta.json <<EOM
 {"property": "$prop", "seed": "$name",
  "confirmed": {"suite_with_change": "$suite", "demo_exit_with_change": "$with", "demo_exit_without_change": "$without",
-               "how": "tools/confirm_seed.sh in a scratch worktree of /repo HEAD $(git -C /repo rev-parse --short HEAD): cmake --build + ctest with the change; demo built with g++ -std=c++14 (or demo.sh) with the change and after git stash"}}
+               "how": "tools/confirm_seed.sh in a scratch worktree of /repo HEAD $(git -C /repo rev-parse --short HEAD): cmake --build + ctest with the change; demo built with g++ -std=c++14 (or demo.sh) with the change and after git apply -R"}}
 EOM
 cd /; git -C /repo worktree remove --force "$wt"
 echo "CONFIRMED -> $d"
